@@ -12,7 +12,7 @@ use super::{SecondaryStorage, SecondaryTable, Snapshot};
 use crate::catalog::find_sort_key_id;
 use crate::storage::secondary::column::ColumnSeekPosition;
 use crate::storage::secondary::concat_iterator::ConcatIterator;
-use crate::storage::secondary::manifest::{AddRowSetEntry, DeleteRowsetEntry};
+use crate::storage::secondary::manifest::{AddRowSetEntry, DeleteDVEntry, DeleteRowsetEntry};
 use crate::storage::secondary::merge_iterator::MergeIterator;
 use crate::storage::secondary::rowset::{DiskRowset, RowsetBuilder, RowsetWriter};
 use crate::storage::secondary::statistics::create_statistics_global_aggregator;
@@ -180,13 +180,26 @@ impl Compactor {
         }
 
         // Remove old RowSets
-        // and TODO: remove old DVs
         changes.extend(selected_rowsets.iter().map(|x| {
             EpochOp::DeleteRowSet(DeleteRowsetEntry {
                 rowset_id: x.rowset_id(),
                 table_id: table.table_ref_id,
             })
         }));
+        // Remove the DVs of the old RowSets that have been applied while reading them. Left
+        // behind, they outlive a later DROP TABLE and make the next open fail on a DV whose
+        // table no longer exists.
+        for rowset in &selected_rowsets {
+            if let Some(dvs) = snapshot.get_dvs_of(table.table_id(), rowset.rowset_id()) {
+                changes.extend(dvs.iter().map(|dv_id| {
+                    EpochOp::DeleteDV(DeleteDVEntry {
+                        table_id: table.table_ref_id,
+                        dv_id: *dv_id,
+                        rowset_id: rowset.rowset_id(),
+                    })
+                }));
+            }
+        }
 
         #[cfg(feature = "verif")]
         crate::verif::point("compactor.before_commit", &[table.table_id() as u64]).await;
